@@ -569,6 +569,29 @@ def run(pid, tier, replay=None):
             facts.append({"clause": "C13:pending_transaction_not_valid_at_head", "holds": rep["not_valid_at_head_or_conflicting"] == 0,
                           "what": "send script, %s: %s" % (variant, rep)})
             chk.case(("send_script_pool", variant), nontrivial=True)
+        # an operating-system fault at the point where a refused transaction is dumped for debugging (a full /tmp): whatever happens to the
+        # connection, the transaction is not admitted
+        w_d, g_d, blocks_d, txs_d = build_universe(cfg, keys_s)
+        run_d = node_drv.NodeRun(w_d, g_d, peers=PEERS, tid=940000, clock0=5000)
+        try:
+            run_d.deliver_block("p", blocks_d[1])
+
+            def failing_dump(tx_):
+                raise OSError(28, "No space left on device")
+            run_d.node.disk.save_transaction_for_debugging = failing_dump
+            pool0 = [t_.hash() for t_ in run_d.node.pool()]
+            for tname in (1003, 1001, 1004):          # signed by the wrong key; valid; conflicts with the valid one
+                peer_ = [p_ for p_ in run_d.peers if run_d.node.is_open(p_)]
+                if not peer_:
+                    break
+                run_d.deliver_tx(peer_[0], txs_d[tname], label="dump_fails_%d" % tname)
+            pool1 = run_d.node.pool()
+            bad_ = [t_ for t_ in pool1 if t_.hash() in (txs_d[1003].hash(), txs_d[1004].hash())]
+            facts.append({"clause": "C13:invalid_or_conflicting_transaction_admitted", "holds": not bad_,
+                          "what": "refused transactions while the debugging dump fails with ENOSPC: %d of them pending afterwards" % len(bad_)})
+            chk.case(("dump_fails",), nontrivial=True)
+        finally:
+            run_d.close()
         if facts:
             vf, rf = tracecheck.run("TraceFacts", facts, {}, ids=[1], workers=1, timeout=300)
             chk.traces_validated += 1
